@@ -89,6 +89,13 @@ CLAIMED["C13"] = (
     "DESIGN.md 3/C13",
 )
 
+CLAIMED["C15"] = (
+    "runtime monitor with an independent bytecode interpreter written from the format documentation only (opcode table by name from iter_ops(), 0xFF immediates, load/store direction flags, marker words): programs compiled with budgets 3,4,8,16,255 (fresh and simplified tapes, very wide programs exhausting 255 registers), bytecode executed and compared bit-for-bit with VmPointEval; bounds of every register and memory index against the advertised counts; uninitialised reads",
+    "Held on every bytecode/input observed (millions of bytecodes per quick run, every opcode and operand form >= 20 times). Exploration.",
+    "Outputs into which a NaN was hashed by rand/mix are skipped; CPU interpreter only (no GPU shader).",
+    "DESIGN.md 3/C15",
+)
+
 NOT_YET = {}
 
 def main():
